@@ -114,6 +114,42 @@ func NewNilTaint(p *Program, entries []Entry) *NilTaint {
 			t.Seeds = append(t.Seeds, fmt.Sprintf("JSON decode target %s in %s", target.Name(), FuncName(f)))
 		})
 	}
+	// seeds: values decoded from a URL query (every pointer field is nil when its key is absent)
+	for _, f := range t.fns {
+		Instrs(f, func(_ *ssa.BasicBlock, _ int, ins ssa.Instruction) {
+			call, ok := ins.(*ssa.Call)
+			if !ok {
+				return
+			}
+			obj := CalleeObj(call.Common())
+			if obj == nil || obj.Name() != "FromURLQuery" || obj.Pkg() == nil || !IsKeto(obj.Pkg()) {
+				return
+			}
+			mark := func(v ssa.Value) {
+				if _, isPtr := v.Type().Underlying().(*types.Pointer); !isPtr {
+					return
+				}
+				// only decoders of all-optional query structs: the tuple decoder validates completeness itself
+				if n := NamedOf(v.Type()); n == nil || !strings.HasSuffix(n.Obj().Name(), "Query") {
+					return
+				}
+				t.R[v] = true
+				t.addRequestType(v.Type(), 0)
+				t.Seeds = append(t.Seeds, fmt.Sprintf("URL query decoded by %s in %s", ObjName(obj), FuncName(f)))
+			}
+			if tup, ok := call.Type().(*types.Tuple); ok {
+				if call.Referrers() != nil {
+					for _, ref := range *call.Referrers() {
+						if ex, ok := ref.(*ssa.Extract); ok && ex.Index < tup.Len() {
+							mark(ex)
+						}
+					}
+				}
+			} else {
+				mark(call)
+			}
+		})
+	}
 	// goroutine roots
 	for _, f := range t.fns {
 		Instrs(f, func(_ *ssa.BasicBlock, _ int, ins ssa.Instruction) {
